@@ -161,3 +161,87 @@ theorem C01_ns_init_processes_every_node : type_of% @NsInitLayersKahn.all_proces
 theorem C01_components_closed_connected : type_of% @ComponentsDfs.closed_connected := @ComponentsDfs.closed_connected
 
 end Autog
+
+namespace Autog
+
+theorem adjL_foldl_cond_reverse (p : G → Nat → Prop) [∀ g e, Decidable (p g e)] : ∀ (l : List Nat) (g : G), AdjL g →
+    (∀ e ∈ l, e < g.edges.size) → AdjL (l.foldl (fun g e => if p g e then g.reverse e else g) g)
+  | [], g, h, _ => h
+  | e :: l, g, h, hb => by
+    simp only [List.foldl_cons]
+    split
+    · exact adjL_foldl_cond_reverse p l _ (adjL_reverse g h e (hb e (List.mem_cons_self ..)))
+        (fun x hx => by rw [G.reverse_esize]; exact hb x (List.mem_cons_of_mem _ hx))
+    · exact adjL_foldl_cond_reverse p l g h (fun x hx => hb x (List.mem_cons_of_mem _ hx))
+
+theorem adjL_execGreedy (g g' : G) (hA : AdjL g) (h : execGreedy g = .ok g') : AdjL g' := by
+  unfold execGreedy at h
+  simp only [bind, Except.bind, pure, Except.pure] at h
+  split at h
+  · cases h
+  · split at h
+    · cases h
+    · simp only [Except.ok.injEq] at h
+      subst h
+      exact adjL_foldl_cond_reverse _ g.elist g hA hA.el
+
+theorem adjL_execDepthFirst (g g' : G) (hA : AdjL g) (h : execDepthFirst g = .ok g') : AdjL g' := by
+  unfold execDepthFirst at h
+  cases hm : dfsMarked g with
+  | error e => simp [hm, bind, Except.bind] at h
+  | ok marked =>
+    simp only [hm, bind, Except.bind, pure, Except.pure, Except.ok.injEq] at h
+    subst h
+    apply adjL_foldl_reverse marked g hA
+    intro e he
+    obtain ⟨u, v, _, hmem, _, _⟩ := C14_dfs_minimal g _ hA.toAdj.uniq marked hm e he
+    unfold outE at hmem
+    obtain ⟨e', he', heq⟩ := List.mem_map.1 hmem
+    have : e' = e := by simpa using congrArg Prod.fst heq
+    subst this
+    exact (hA.outs u e' he').1
+
+/-- adjacency consistency survives the whole of phase 1, whichever breaker runs -/
+theorem adjL_phase1 (alg : Nat) (g g' : G) (hA : AdjL g) (h : phase1 alg g = .ok g') : AdjL g' := by
+  unfold phase1 at h
+  simp only [bind, Except.bind, pure, Except.pure] at h
+  split at h
+  · simp only [Except.ok.injEq] at h; subst h; exact hA
+  · have h2 := adjL_removeTwoNodeCycles g hA
+    cases hc : hasCycles (removeTwoNodeCycles g) with
+    | error e => rw [hc] at h; cases h
+    | ok b =>
+      rw [hc] at h
+      simp only at h
+      cases b with
+      | false => simp only [Bool.not_false, if_true, Except.ok.injEq] at h; subst h; exact h2
+      | true =>
+        simp only [Bool.not_true, Bool.false_eq_true, if_false] at h
+        cases hb : breakCycles alg (removeTwoNodeCycles g) with
+        | error e => rw [hb] at h; cases h
+        | ok g2 =>
+          rw [hb] at h
+          simp only at h
+          have hg2 : AdjL g2 := by
+            unfold breakCycles at hb
+            split at hb
+            · exact adjL_execGreedy _ _ h2 hb
+            · exact adjL_execDepthFirst _ _ h2 hb
+          cases hc2 : hasCycles g2 with
+          | error e => rw [hc2] at h; cases h
+          | ok b2 =>
+            rw [hc2] at h
+            cases b2 with
+            | true => simp [throw, throwThe, MonadExceptOf.throw] at h
+            | false =>
+              simp only [Bool.false_eq_true, if_false, Except.ok.injEq] at h
+              subst h
+              exact hg2
+
+/-- … so the layerers receive a state on which the tight-tree search, the lim/low numbering and the longest-path traversal are total -/
+theorem C01_after_phase1_walks_total (alg : Nat) (g g' : G) (hA : AdjL g) (h : phase1 alg g = .ok g') :
+    (∃ r, tightTree g' = .ok r) ∧ IncWF g' ∧ EdgesWF g' :=
+  ⟨tightTree_total g' (adjL_phase1 alg g g' hA h).toAdj.incWF, (adjL_phase1 alg g g' hA h).toAdj.incWF,
+    (adjL_phase1 alg g g' hA h).toAdj.edgesWF⟩
+
+end Autog
